@@ -208,7 +208,20 @@ fn ftext(depth: u32) -> BoxedStrategy<FText> {
     // filters that make the evaluator follow refs: wildcard and relationship terms over ref tags
     let chasing = (prop::sample::select(vec!["a", "b", "siteRef", "equipRef", "a->b", "a->b->c", "siteRef->equipRef"]), 0u8..7, prop::sample::select(vec!["containedBy", "contains", "siteRef", "equipRef", "hotWaterRef", "a", "inputs", "outputs"]), prop::sample::select(vec!["", " ^site", " ^equip", " ^point", " ^space"]), prop::sample::select(vec!["", " @r0", " @r3", " @zz"]))
         .prop_map(|(p, r, rel, term, rf)| format!("{p} *== @r{r} or {rel}?{term}{rf} or {p}->dis == \"x\" or ^site").into_bytes());
+    // string-like literals whose bodies are runs of escapes (paired, unpaired and half-finished surrogates, bad hex, lone backslashes)
+    let escapes = (super::c03::escape_body(), super::c03::escape_body(), 0u8..6).prop_map(|(a, b, wrap)| {
+        match wrap {
+            0 => format!("dis == \"{a}\""),
+            1 => format!("u == `{a}`"),
+            2 => format!("r == @x \"{a}\""),
+            3 => format!("a *== @x \"{a}\" or b == \"{b}\""),
+            4 => format!("( dis == \"{a}\" ) and x != `{b}`"),
+            _ => format!("s == \"{a}\" and t == \"{b}\""),
+        }
+        .into_bytes()
+    });
     prop_oneof![
+        2 => (escapes, next()).prop_map(|(bytes, next)| FText { bytes, origin: "escape-soup".into(), next }),
         2 => (prop::collection::vec(any::<u8>(), 0..64), next()).prop_map(|(bytes, next)| FText { bytes, origin: "arbitrary-bytes".into(), next }),
         2 => (crate::gen::value::ustring(24), next()).prop_map(|(s, next)| FText { bytes: s.into_bytes(), origin: "arbitrary-utf8".into(), next }),
         3 => (soup, next()).prop_map(|(bytes, next)| FText { bytes, origin: "operator-soup".into(), next }),
